@@ -15,72 +15,72 @@ Open Scope Z_scope.
    the frames k1 above the nearest barrier and the barrier itself; the frames further
    out (k2), the store and the trace are untouched (the state after the catch is the
    caller's state: state_consistent_after_catch); the value delivered is the value raised. *)
-Theorem C11_error_reaches_nearest_barrier : forall k1 h k2 v σ tr ln,
+Theorem C11_error_reaches_nearest_barrier : forall k1 h k2 v σ tr ln cs,
   forallb passes_error k1 = true ->
-  steps (length k1 + 1) (mkCfg (COut (OError v)) (k1 ++ KPcall h :: k2) σ tr ln) =
-  inl (mkCfg (CRet [VBool false; v]) k2 σ tr (unwind_line k1 ln)).
+  steps (length k1 + 1) (mkCfg (COut (OError v)) (k1 ++ KPcall h :: k2) σ tr ln cs) =
+  inl (mkCfg (CRet [VBool false; v]) k2 σ tr (unwind_line k1 ln) cs).
 Proof. exact error_reaches_nearest_barrier. Qed.
 Print Assumptions C11_error_reaches_nearest_barrier.
 
-Theorem C11_error_reaches_host_intact : forall k1 v σ tr ln,
+Theorem C11_error_reaches_host_intact : forall k1 v σ tr ln cs,
   forallb passes_error k1 = true ->
-  steps (length k1 + 1) (mkCfg (COut (OError v)) k1 σ tr ln) = inr (FError v).
+  steps (length k1 + 1) (mkCfg (COut (OError v)) k1 σ tr ln cs) = inr (FError v).
 Proof. exact error_reaches_host. Qed.
 Print Assumptions C11_error_reaches_host_intact.
 
-Theorem C11_pcall_returns_true_and_all : forall vs h k σ tr ln,
-  step (mkCfg (CRet vs) (KPcall h :: k) σ tr ln) = inl (mkCfg (CRet (VBool true :: vs)) k σ tr ln).
+Theorem C11_pcall_returns_true_and_all : forall vs h k σ tr ln cs,
+  step (mkCfg (CRet vs) (KPcall h :: k) σ tr ln cs) = inl (mkCfg (CRet (VBool true :: vs)) k σ tr ln cs).
 Proof. exact pcall_returns_true_and_all. Qed.
 Print Assumptions C11_pcall_returns_true_and_all.
 
 (* nothing further out sees the error: under a plain pcall no handler runs, whatever
    xpcall barriers k2 contains *)
-Theorem C11_raise_under_pcall_no_outer_handler : forall k1 k2 v σ tr ln,
+Theorem C11_raise_under_pcall_no_outer_handler : forall k1 k2 v σ tr ln cs,
   forallb plain_frame k1 = true ->
-  steps (S (length k1 + 1)) (mkCfg (CRaise v) (k1 ++ KPcall None :: k2) σ tr ln) =
-  inl (mkCfg (CRet [VBool false; v]) k2 σ tr (unwind_line k1 ln)).
+  steps (S (length k1 + 1)) (mkCfg (CRaise v) (k1 ++ KPcall None :: k2) σ tr ln cs) =
+  inl (mkCfg (CRet [VBool false; v]) k2 σ tr (unwind_line k1 ln) cs).
 Proof. exact raise_under_pcall_no_outer_handler. Qed.
 Print Assumptions C11_raise_under_pcall_no_outer_handler.
 
 (* xpcall_handler_once_at_raise_point *)
-Theorem C11_handler_called_at_raise_point : forall k1 h k2 v σ tr ln,
+Theorem C11_handler_called_at_raise_point : forall k1 h k2 v σ tr ln cs,
   forallb plain_frame k1 = true ->
-  step (mkCfg (CRaise v) (k1 ++ KPcall (Some h) :: k2) σ tr ln) =
-  inl (mkCfg (CCall h [v] false) (KHandler :: k1 ++ KPcall (Some h) :: k2) σ tr ln).
+  step (mkCfg (CRaise v) (k1 ++ KPcall (Some h) :: k2) σ tr ln cs) =
+  inl (mkCfg (CCall h [v] false) (KHandler :: k1 ++ KPcall (Some h) :: k2) σ tr ln cs).
 Proof. exact raise_calls_handler_at_raise_point. Qed.
 Print Assumptions C11_handler_called_at_raise_point.
 
-Theorem C11_handler_result_replaces_error : forall k1 h k2 vs σ tr ln,
+Theorem C11_handler_result_replaces_error : forall k1 h k2 vs σ tr ln cs,
   forallb passes_error k1 = true ->
-  steps (S (length k1 + 1)) (mkCfg (CRet vs) (KHandler :: k1 ++ KPcall (Some h) :: k2) σ tr ln) =
-  inl (mkCfg (CRet [VBool false; first vs]) k2 σ tr (unwind_line k1 ln)).
+  steps (S (length k1 + 1)) (mkCfg (CRet vs) (KHandler :: k1 ++ KPcall (Some h) :: k2) σ tr ln cs) =
+  inl (mkCfg (CRet [VBool false; first vs]) k2 σ tr (unwind_line k1 ln) cs).
 Proof. exact handler_result_replaces_error. Qed.
 Print Assumptions C11_handler_result_replaces_error.
 
-Theorem C11_no_handler_inside_handler : forall k1 k v σ tr ln,
+Theorem C11_no_handler_inside_handler : forall k1 k v σ tr ln cs,
   forallb plain_frame k1 = true ->
-  step (mkCfg (CRaise v) (k1 ++ KHandler :: k) σ tr ln) =
-  inl (mkCfg (COut (OError v)) (k1 ++ KHandler :: k) σ tr ln).
+  step (mkCfg (CRaise v) (k1 ++ KHandler :: k) σ tr ln cs) =
+  inl (mkCfg (COut (OError v)) (k1 ++ KHandler :: k) σ tr ln cs).
 Proof. exact no_handler_inside_handler. Qed.
 Print Assumptions C11_no_handler_inside_handler.
 
 (* error(v): any non-string value is raised as it is; a string gets the position of
    the call at level 1 and stays as it is at level 0 *)
-Theorem C11_error_raises_value_itself : forall v k σ tr ln,
+Theorem C11_error_raises_value_itself : forall v k σ tr ln cs,
   (forall s, v <> VStr s) ->
-  step (mkCfg (CCall (VBuiltin BError) [v] true) k σ tr ln) = inl (mkCfg (CRaise v) k σ tr ln).
+  step (mkCfg (CCall (VBuiltin BError) [v] true) k σ tr ln cs) = inl (mkCfg (CRaise v) k σ tr ln cs).
 Proof. exact error_builtin_raises_value. Qed.
 Print Assumptions C11_error_raises_value_itself.
 
-Theorem C11_error_level1_position : forall s k σ tr ln,
-  step (mkCfg (CCall (VBuiltin BError) [VStr s] true) k σ tr ln) =
-  inl (mkCfg (CRaise (VStr (position_at ln ++ s))) k σ tr ln).
+Theorem C11_error_level1_position : forall s k σ tr ln cs,
+  step (mkCfg (CCall (VBuiltin BError) [VStr s] true) k σ tr ln cs) =
+  inl (mkCfg (CRaise (VStr (position_at ln ++ s))) k σ tr ln cs).
 Proof. exact error_builtin_level1_position. Qed.
 Print Assumptions C11_error_level1_position.
 
-Theorem C11_error_level0_intact : forall s k σ tr ln,
-  step (mkCfg (CCall (VBuiltin BError) [VStr s; VInt 0] true) k σ tr ln) =
-  inl (mkCfg (CRaise (VStr s)) k σ tr ln).
+Theorem C11_error_level0_intact : forall s k σ tr ln cs,
+  step (mkCfg (CCall (VBuiltin BError) [VStr s; VInt 0] true) k σ tr ln cs) =
+  inl (mkCfg (CRaise (VStr s)) k σ tr ln cs).
 Proof. exact error_builtin_level0_intact. Qed.
 Print Assumptions C11_error_level0_intact.
 
